@@ -182,7 +182,7 @@ def _wire(ser, packets, converter=None):
     return wire, ends
 
 
-def _check(S, ser, packets, cuts, path, hint, expected=None, converter=None, window=0):
+def _check(S, ser, packets, cuts, path, hint, expected=None, converter=None, window=0, recv_ser=None):
     try:
         wire, ends = _wire(ser, packets, converter)
     except Exception as e:  # noqa: BLE001
@@ -193,7 +193,7 @@ def _check(S, ser, packets, cuts, path, hint, expected=None, converter=None, win
         S.assume(cs[1] - cs[0] <= window)  # long wires: the middle chunk is 0..window bytes, anywhere
     pieces = L.split_at(wire, cs)
     try:
-        ev, nleft = _receive(ser, pieces, path, hint, converter)
+        ev, nleft = _receive(recv_ser if recv_ser is not None else ser, pieces, path, hint, converter)
     except Exception as e:  # noqa: BLE001
         return Outcome(ok=False, skeleton=("exc-recv", type(e).__name__), tags=("exception",), detail={"exception": repr(e), "wire": wire})
     want = expected if expected is not None else packets
@@ -317,14 +317,28 @@ def _corpus(name: str):
         return StringLineSerializer("CR", keep_end=True), ["abc\r", "\n\r", "x\r"]
     if name == "stapled-json-line":
         return StapledPacketSerializer(JSONSerializer(), JSONSerializer()), JSON_PK[5:9]
+    if name == "stapled-x-line-json":
+        # endpoint X sends lines and expects JSON; its peer Y (the receiver here) expects lines
+        return StapledPacketSerializer(StringLineSerializer("LF"), JSONSerializer()), ["abc", "d e", "x"]
+    if name == "stapled-x-json-line":
+        return StapledPacketSerializer(JSONSerializer(), StringLineSerializer("LF")), JSON_PK[5:9]
     raise ValueError(name)
+
+
+def _peer(name: str):
+    """the serializer of the peer that receives what `name` sends (None: same object)"""
+    if name == "stapled-x-line-json":
+        return StapledPacketSerializer(JSONSerializer(), StringLineSerializer("LF"))
+    if name == "stapled-x-json-line":
+        return StapledPacketSerializer(StringLineSerializer("LF"), JSONSerializer())
+    return None
 
 
 def corpus(name: str, idx: list, cuts: int, path: str, hint: int = 3, window: int = 0):
     def scenario(S):
         ser, table = _corpus(name)
         packets = [table[i % len(table)] for i in idx]
-        return _check(S, ser, packets, cuts, path, hint, window=window)
+        return _check(S, ser, packets, cuts, path, hint, window=window, recv_ser=_peer(name))
 
     return scenario
 
@@ -363,10 +377,10 @@ def shards(tier: str):
             for hint in (1, 3) if quick else (1, 3, 5, 64):
                 add(f"sym/rawfixed/{nm}/{path}/h{hint}", "sym", dict(kind="rawfixed", lens=lens, cuts=2 if quick else 3, path=path, hint=hint), cost=3 ** sum(lens))
     # ---- corpus ------------------------------------------------------------------------
-    names = ["json-lines", "json-raw", "struct", "namedtuple", "b64", "b64-std-checksum", "zlib", "bz2", "picklefile", "line-utf8", "line-cr-keepend", "zlib-json", "b64-json", "stapled-json-line", "json-raw-utf16", "b64-key", "zlib-1"]
+    names = ["json-lines", "json-raw", "struct", "namedtuple", "b64", "b64-std-checksum", "zlib", "bz2", "picklefile", "line-utf8", "line-cr-keepend", "zlib-json", "b64-json", "stapled-json-line", "json-raw-utf16", "b64-key", "zlib-1", "stapled-x-line-json", "stapled-x-json-line"]
     for name in names:
         ser, table = _corpus(name)
-        buffered = hasattr(ser, "buffered_incremental_deserialize")
+        buffered = hasattr(_peer(name) or ser, "buffered_incremental_deserialize")
         groups = [[i, i + 1] for i in range(0, len(table), 2)]
         if quick:
             groups = groups[:2] if name not in ("json-lines", "json-raw") else groups[:4]
